@@ -4,6 +4,7 @@
 
 mod heads;
 mod replica;
+mod session;
 mod world;
 
 use std::{collections::HashMap, path::PathBuf};
@@ -61,6 +62,21 @@ fn main() {
     let mut sum = Summary::default();
     match args.cmd.as_str() {
         "replica" => cmd_replica(&args, seed, &dir, &mut trace, &mut sum),
+        "session" => {
+            let w = World::new(seed, 3, 3);
+            let mut rng = Rng::new(seed);
+            let mut scs: Vec<Value> = vec![];
+            if let Some(p) = args.kv.get("schedules") {
+                for s in read_schedules(p) {
+                    scs.push(s["sc"].clone());
+                }
+            }
+            scs.extend(session::gen_scenarios(&mut rng, args.num("n", 100) as usize));
+            let rt = tokio::runtime::Builder::new_current_thread().enable_all().build().unwrap();
+            for (i, sc) in scs.iter().enumerate() {
+                rt.block_on(session::run_scenario(&w, sc, i, seed, &dir, &mut trace, &mut sum));
+            }
+        }
         "heads" => {
             let w = World::new(seed, 6, 2);
             let mut rng = Rng::new(seed);
@@ -107,6 +123,18 @@ fn cmd_replica(args: &Args, seed: u64, dir: &std::path::Path, trace: &mut Trace,
                 subs: false,
                 msgs: false,
                 admin: i % 5 == 0,
+                ranges: false,
+            },
+            "c08" => replica::GenCfg {
+                n_auth: if small { 1 } else { 3 },
+                n_keys: if small { 5 } else { replica::KEYS.len() },
+                max_ts: 4,
+                len: if small { 12 } else { 30 },
+                invalid: false,
+                subs: false,
+                msgs: false,
+                admin: false,
+                ranges: true,
             },
             "c03" => replica::GenCfg {
                 n_auth: 2,
@@ -117,6 +145,7 @@ fn cmd_replica(args: &Args, seed: u64, dir: &std::path::Path, trace: &mut Trace,
                 subs: true,
                 msgs: true,
                 admin: false,
+                ranges: false,
             },
             _ => replica::GenCfg {
                 n_auth: 2,
@@ -127,6 +156,7 @@ fn cmd_replica(args: &Args, seed: u64, dir: &std::path::Path, trace: &mut Trace,
                 subs: true,
                 msgs: true,
                 admin: true,
+                ranges: false,
             },
         };
         histories.push((replica::gen_history(&mut rng, &g), file_every > 0 && i % file_every == 0));
